@@ -276,6 +276,32 @@ pub fn run(tier: Tier) -> i32 {
             }
         }
     }
+    // E6: the ill-scoped pipeline is a declaration that the main pipeline does not use — by `let`, by `into`, in a
+    // module, behind a second unused declaration, after the main pipeline. It is ill-scoped all the same.
+    {
+        let bad = [
+            ("from t | select {a} | filter b > 1", "a column that is not in the fully known frame"),
+            ("from t | select {a} | select {t.b}", "a qualified column that is not in the fully known frame"),
+            ("from t | select {a, b} | join r=(from u | select {a, b = d}) (==a) | filter b > 1", "a bare name matching a column of each joined relation"),
+            ("from t | take 1 2", "a surplus positional argument"),
+            ("from t | sort nope:1 {a}", "an unknown named argument"),
+            ("from t | join (1 + 1) true", "a scalar used as a relation"),
+            ("from t | group a (aggregate {n = count this}) | filter b > 0", "a column that the aggregate dropped"),
+        ];
+        for (pipe, what) in bad {
+            let forms = [
+                format!("let dead = ({pipe})\nfrom u\n"),
+                format!("{}\ninto dead\n\nfrom u\n", pipe.replace(" | ", "\n")),
+                format!("module zm {{\n  let dead = ({pipe})\n}}\nfrom u\n"),
+                format!("let dead = ({pipe})\nlet dead2 = (from dead | take 1)\nfrom u\n"),
+                format!("from u\nlet dead = ({pipe})\n"),
+                format!("let live = (from u | take 3)\nlet dead = ({pipe})\nfrom live\n"),
+            ];
+            for f in forms {
+                fixed.push(Edit { kind: "E6-ill-scoped-declaration-not-used", text: f, what: format!("{what}, in a declaration the main pipeline does not use") });
+            }
+        }
+    }
     // base programs must themselves be accepted (otherwise an edit proves nothing)
     let base_ok: Vec<bool> = par_map(&progs, || (), |_, (p, _, _)| matches!(verdict(&pr_program(p)), Verdict::Accepted(_)));
     let mut cases: Vec<(Edit, usize)> = vec![];
@@ -308,7 +334,14 @@ pub fn run(tier: Tier) -> i32 {
             }
             Verdict::Accepted(sql) => {
                 run.violate(
-                    Some(if e.kind == "E2-ambiguous-bare-name" && same_named_relations_joined(&e.text) { "accepted:E2-same-named-relations-joined".to_string() } else { format!("accepted:{}", e.kind) }),
+                    Some(if e.kind == "E2-ambiguous-bare-name" && same_named_relations_joined(&e.text) {
+                        "accepted:E2-same-named-relations-joined".to_string()
+                    } else if e.kind.starts_with("E6") {
+                        // (one identity per kind of scope error: an unused declaration hides some of them today)
+                        format!("accepted:{}:{}", e.kind, e.what.split(',').next().unwrap_or("").replace(' ', "-"))
+                    } else {
+                        format!("accepted:{}", e.kind)
+                    }),
                     format!("{} ({}) :: {} :: compiled to {}", e.kind, e.what, e.text.trim().replace('\n', " | "), sql),
                     json!({"driver":"EDIT","edit": e.kind, "what": e.what, "source": e.text, "sql_generic": sql,
                            "base_choices": if *pi == usize::MAX { json!(null) } else { json!(progs[*pi].1) }}),
@@ -316,7 +349,8 @@ pub fn run(tier: Tier) -> i32 {
             }
             Verdict::Panic(site, msg) => {
                 run.violate(
-                    Some(format!("panic@{site}")),
+                    // (file and message, not the line: lines move with every repair in that file)
+                    Some(format!("panic@{}:{}", site.rsplit_once(':').map(|x| x.0).unwrap_or(&site), msg.chars().take(50).collect::<String>())),
                     format!("{} :: {} :: panic at {site}: {msg}", e.kind, e.text.trim().replace('\n', " | ")),
                     json!({"driver":"EDIT","edit": e.kind, "what": e.what, "source": e.text, "panic_site": site, "panic_msg": msg}),
                 );
